@@ -247,7 +247,7 @@ static const int TUNE_H[] = { 3, 10, 9, 0, 5, 4 };   /* (2,1,2..), (2,4,4..) rel
 static const int VALS_H[] = { 2, 1, 7 };
 static const int ORD_H[8][2] = { { 3, 0 }, { 0, 0 }, { 2, 1 }, { 0, 1 }, { 1, 0 }, { 2, 0 }, { 3, 1 }, { 1, 1 } };   /* (ColPerm, SymmetricMode) */
 static const int U_H[] = { 0, 1, 4 };                         /* DiagPivotThresh 1, 0.1, 0 */
-static const int ILU_H[] = { -1, 0, 8, 23, 197 };            /* xgssvx | xgsisx: NODROP; BASIC tol .5; BASIC|AREA tol 1e-4 fill 1; BASIC tol .5 SMILU_2 */
+static const int ILU_H[] = { -1, 21, 29, 23, 218 };          /* xgssvx | xgsisx with ILU_FillFactor 1 (the arrays start at nnz(A) and grow during the session): NODROP; BASIC tol .5; BASIC|AREA tol 1e-4; BASIC tol .5 SMILU_2 */
 static void set06(const int *d, vcase *c)
 {
     static const int BASES6[] = { 2, 7, 8, 1, 11, 12, 5, 3 };   /* arrow-last, grid, irregular, tridiagonal, interleaved chains (natural order not a postorder), the same joined by a dense column, bidiagonal+row, arrow-first */
